@@ -47,10 +47,11 @@ MUST_REACH = [
     "lammpstrj_frame_k", "lammpstrj_reverse", "lammpstrj_shift",
     "trr_decode_4way", "trr_frame_k", "swap_integer", "gmx_extract_frame",
     "mdp_edit", "mdp_idempotent", "cp2k_edit", "cp2k_idempotent",
-    "lammps_edit"]
+    "lammps_edit", "lammpstrj_stream"]
 JOB_TIMEOUT = 1500
 # cases per family for one job of scale 1
-BASE = {"g96": 28, "xyz": 22, "lammpstrj": 12, "trr": 16, "gmxframe": 14,
+BASE = {"g96": 28, "xyz": 22, "lammpstrj": 12, "lammpsstream": 10, "trr": 16,
+        "gmxframe": 14,
         "mdp": 70, "cp2k": 60, "lammpsin": 70}
 
 
@@ -946,7 +947,64 @@ def fam_lammpsin(rec, rng, d, i):
                             "settings": lit["settings"], "output": res})
 
 
+def fam_lammpsstream(rec, rng, d, i):
+    """The streaming decoder (lammpstrj_reader through ReadAndProcessOnTheFly)
+    reading a complete multi-frame dump in ONE call must return every frame
+    with exactly the written values (ids 1..n in any order, trailing id)."""
+    np = _np()
+    from infretis.classes.engines.engineparts import (
+        ReadAndProcessOnTheFly, lammpstrj_reader)
+    from vf.oracles import codecs19 as O
+    n, nfr = natoms(rng, lo=2), int(rng.integers(2, 6))
+    frames = []
+    for j in range(nfr):
+        ids = rng.permutation(np.arange(1, n + 1))
+        lo = rng.uniform(-20, 20, size=3) * (rng.random() < 0.7)
+        box = np.column_stack([lo, lo + rng.uniform(5, 60, size=3)])
+        frames.append({
+            "ids": ids, "types": rng.integers(1, 7, size=n), "box": box,
+            "pos": reals(rng, (n, 3), "mid"),
+            "vel": reals(rng, (n, 3), "small"), "step": j})
+    f0 = os.path.join(d, f"ls{i}.lammpstrj")
+    with open(f0, "w", encoding="utf-8") as fh:
+        fh.write(O.lammpstrj_text(frames, trailing_id=True,
+                                  style=int(rng.integers(0, 3))))
+    rec.hit("lammpstrj_stream")
+    rec.sig("lammpsstream", f"{n}-{nfr}-{frames[0]['pos'][0][0]}")
+    reader = ReadAndProcessOnTheFly(f0, lammpstrj_reader)
+    try:
+        traj, boxes = reader.read_and_process_content()
+    except Exception as exc:
+        rec.viol("lammpstrj-stream-raised", f"{type(exc).__name__}: {exc}",
+                 natoms=n, nframes=nfr)
+        return
+    if len(traj) != nfr or len(boxes) != nfr:
+        rec.viol("lammpstrj-stream-frame-count",
+                 f"{len(traj)} frames / {len(boxes)} boxes returned for "
+                 f"{nfr} complete frames in the file", natoms=n)
+        return
+    for k, fr in enumerate(frames):
+        order = np.argsort(fr["ids"])
+        want = np.column_stack([fr["pos"][order], fr["vel"][order]])
+        if not (np.array_equal(np.asarray(traj[k], dtype=float), want)):
+            which = [j for j in range(nfr) if np.array_equal(
+                np.asarray(traj[k], dtype=float), np.column_stack([
+                    frames[j]["pos"][np.argsort(frames[j]["ids"])],
+                    frames[j]["vel"][np.argsort(frames[j]["ids"])]]))]
+            rec.viol("lammpstrj-stream-frame-k-wrong",
+                     f"frame {k} of {nfr} read in one call differs from what "
+                     f"was written (equals written frame(s) {which})",
+                     natoms=n)
+            return
+        if not np.array_equal(np.asarray(boxes[k], dtype=float)[:, :2],
+                              fr["box"]):
+            rec.viol("lammpstrj-stream-box-k-wrong",
+                     f"box of frame {k} of {nfr} differs", natoms=n)
+            return
+
+
 FAMILIES = {"g96": fam_g96, "xyz": fam_xyz, "lammpstrj": fam_lammpstrj,
+            "lammpsstream": fam_lammpsstream,
             "trr": fam_trr, "gmxframe": fam_gmxframe, "mdp": fam_mdp,
             "cp2k": fam_cp2k, "lammpsin": fam_lammpsin}
 
